@@ -11,7 +11,8 @@
 // second way a template is evaluated (value.go); M marker code points - valid code points that
 // readers and decoders give a meaning of their own, such as U+FFFD - in every position of short
 // strings (markers.go); R one Evaluator reused under sequences of contexts that differ in their
-// allowed top-level names (reuse.go).
+// allowed top-level names (reuse.go); U templates that break off inside an expression - inside a
+// call, inside a string literal, right after a backslash - behind every kind of neighbour (unclosed.go).
 package c12
 
 import (
@@ -481,8 +482,12 @@ func run(c *mc.Ctx) {
 	if !capped {
 		capped = r.runReuse()
 	}
+	// family U: templates that break off inside an expression
+	if !capped {
+		capped = r.runUnclosed(bodySh, valSh)
+	}
 	if capped {
-		c.Cap("time budget reached: units (all strings with one 3-character suffix; all first strings for one second string; all strings with one marker code point and one first character; all strings with one 2-character suffix under every sequence of contexts) are taken in a fixed order and every unit started before the cap was completed")
+		c.Cap("time budget reached: units (all strings with one 3-character suffix; all first strings for one second string; all strings with one marker code point and one first character; all strings with one 2-character suffix under every sequence of contexts; all tails with one last character behind one head and one opener) are taken in a fixed order and every unit started before the cap was completed")
 	}
 	for ch, n := range r.symCases {
 		c.Add("symbol:"+strconv.QuoteRune(ch), n)
@@ -509,7 +514,7 @@ func replayFn(c *mc.Ctx, raw json.RawMessage) (string, bool) {
 		f, ref := checkValue(evalr, baseWorld, rp.S)
 		var v any
 		mc.Guard(func() { v, _, _ = evalr.TemplateValue(env, baseCtx, rp.S) })
-		desc := fmt.Sprintf("template text %q\nEvaluator.TemplateValue: %T %v\nstatement's rule: one expression and nothing else: %v (expression %q, evaluates: %v); text %q (whole text specified: %v)\n", rp.S, v, v, ref.single, ref.expr, ref.ok, ref.text, ref.exact)
+		desc := fmt.Sprintf("template text %q\nEvaluator.TemplateValue: %T %v\nstatement's rule: one expression and nothing else: %v (expression %q, evaluates: %v); text %q (every `@(` closed: %v)\n", rp.S, v, v, ref.single, ref.expr, ref.ok, ref.text, ref.exact)
 		if f != nil {
 			desc += "PROBLEM " + f.class + ": " + f.what + "\n"
 		}
@@ -517,8 +522,11 @@ func replayFn(c *mc.Ctx, raw json.RawMessage) (string, bool) {
 	}
 	if rp.Kind == "body" {
 		out, failed, pn := evalTemplate(baseCtx, rp.S)
-		want, exact, _ := refTemplate(baseCtx, rp.S)
-		desc := fmt.Sprintf("template text %q\nEvaluator.Template: %q (error: %v) %s\nstatement's rule:   %q (whole text specified: %v)\nscanner tokens: %s\n", rp.S, out, failed, pn, want, exact, describeToks(scan(rp.S)))
+		ref := refOf(baseWorld, rp.S)
+		desc := fmt.Sprintf("template text %q\nEvaluator.Template: %q (error: %v) %s\nstatement's rule:   %q (every `@(` closed: %v)\nscanner tokens: %s\n", rp.S, out, failed, pn, ref.want, ref.exact, describeToks(scan(rp.S)))
+		if !ref.exact {
+			desc += "with the unclosed `@(` and what follows it passed through as text: " + quoteAll(ref.alts) + "\nscanner pieces put back together: " + strconv.Quote(reassemble(rp.S)) + "\n"
+		}
 		f := checkBody(rp.S)
 		if f != nil {
 			desc += "PROBLEM " + f.class + ": " + f.what + "\n"
@@ -559,6 +567,10 @@ func guards(r *mc.Result, tier string) []string {
 		"value:whitespace-trimmed", "value:single-identifier-evaluated", "value:single-expression-evaluated", "value:single-expression-fails", "value:unclosed-expression",
 		"value:expression-then-text-ending-in-parenthesis", "value:two-expressions", "value:two-identifiers", "value:no-at",
 		"marker:next-to-special-character",
+		"unclosed:tail-closes-the-expression", "unclosed:ends-in-literal-after-unescaped-backslash", "unclosed:ends-in-literal-after-escaped-backslash", "unclosed:ends-in-literal-after-escaped-quote",
+		"unclosed:ends-in-literal-after-parenthesis", "unclosed:ends-in-literal-after-opening-quote", "unclosed:ends-in-literal-after-other-character", "unclosed:ends-after-closed-literal",
+		"unclosed:ends-after-inner-closing-parenthesis", "unclosed:ends-after-backslash-outside-literal", "unclosed:ends-outside-literal-after-other-character", "unclosed:several-parentheses-open",
+		"unclosed:after-other-text-or-expressions", "unclosed:at-sign-after-the-unclosed-opening", "unclosed:second-opening-after-the-unclosed-opening",
 		"reuse:text-means-different-things-in-different-contexts", "reuse:name-allowed-in-one-context-only", "reuse:has-expression",
 	} {
 		if r.Facts[fact] == 0 {
@@ -570,7 +582,7 @@ func guards(r *mc.Result, tier string) []string {
 			f = append(f, "no case contained the marker code point "+strconv.QuoteRuneToASCII(m))
 		}
 	}
-	for _, k := range []string{"cases:template-text", "cases:one-literal", "cases:two-literals", "cases:template-value", "cases:reused-evaluator", "marker_strings"} {
+	for _, k := range []string{"cases:template-text", "cases:one-literal", "cases:two-literals", "cases:template-value", "cases:reused-evaluator", "marker_strings", "cases:unclosed-tail"} {
 		if r.Counters[k] < 100000 {
 			f = append(f, fmt.Sprintf("counter %s = %d, expected at least 100000", k, r.Counters[k]))
 		}
@@ -586,13 +598,13 @@ func init() {
 			"(V) evaluated the second way a template is evaluated, Evaluator.TemplateValue, and compared with the same rule applied to the whitespace-trimmed text (exactly one expression and nothing else: that expression's value, an error value if it fails; anything else: the rule's text as a text value); " +
 			"(ii) written with strconv.Quote into `@(Q)`, the value of `@(Q)` (TemplateValue), `x @(Q) y`, `@n@(Q)@n`, `@(Q)@(Q)`, `@(f(Q))`, `@(o[Q])` and expected to evaluate to exactly the string; (iii) every pair of strings of length <= 3 x <= 3 (quick) / <= 4 x <= 3 (thorough) is written into `@(Q & T)`, `@(Q = T)`, `@(f(Q, T))`. " +
 			"(L) values of 21 lengths around every plausible internal limit (63..10001) of 9 kinds of character written by TextLiteral.String(), parsed, evaluated and printed again. " +
-			"(M) for each of 18 marker code points that readers, decoders and lexers give a meaning of their own (U+FFFD the decoder's error marker, U+FEFF, U+FFFE, U+FFFF, U+10FFFF, U+D7FF, U+E000, U+00FF, U+0080, U+007F, U+001A, U+0004, the white space U+0085 U+00A0 U+2028 the lexer does not know, CR, TAB, space): every string of length 1..4 (quick) / 1..5 (thorough) over the 11 characters + the marker that contains the marker goes through (i), (V) and the one-literal positions of (ii), and is also evaluated as template text and for its value standing unescaped inside a literal, `@(\"`+s+`\")`. " +
+			"(M) for each of 18 marker code points that readers, decoders and lexers give a meaning of their own (U+FFFD the decoder's error marker, U+FEFF, U+FFFE, U+FFFF, U+10FFFF, U+D7FF, U+E000, U+00FF, U+0080, U+007F, U+001A, U+0004, the white space U+0085 U+00A0 U+2028 the lexer does not know, CR, TAB, space): every string of length 1..4 (quick) / 1..5 (thorough) over the 11 characters + the marker that contains the marker goes through (i), (V) and the one-literal positions of (ii), and is also evaluated as template text and for its value standing unescaped inside a literal, `@(\"`+s+`\")`, and breaking off inside that literal, `@(\"`+s. " +
 			"(R) one Evaluator, several contexts: every string of length 1..4 (quick) / 1..5 (thorough) over the 11 characters is evaluated by Evaluator.Template on ONE fresh Evaluator under every ordered sequence of 2 contexts (thorough: also of 3, for length <= 4) out of 3 contexts that differ in their allowed top-level names ({n,f}, {é,f}, {f}); every call of the sequence is compared with the statement's rule for the context of that call. " +
 			"evaluations = executed cases (string x position; R: calls); distinct_nontrivial = cases whose string(s) contain at least one of quote, backslash, parenthesis, @ (every case is a different template; R: a different template or a different history of calls).",
 		Assumptions: []string{
 			"bounded: alphabet and lengths as stated; allowed top-level names are n and f (family R: three contexts allowing {n,f}, {é,f}, {f}); one environment",
 			"'written as a quoted, escaped string literal' is read as Go's strconv.Quote, the form goflow itself prints literals in",
-			"text after an `@(` that is never closed is unspecified by the statement: only the output before it is compared",
+			"an `@(` that is never closed (reference rule: parentheses counted outside string literals, a backslash inside a literal escapes exactly the next character) opens no expression: it and what follows it is template text and passes through. Whether an `@@`, `@name` or closed `@(..)` AFTER it is still read as template text is not said by the statement: both outputs are accepted (the rest exactly as written; `@(` literal and the rest by the statement's rule again), any other output - a character added, lost or changed - is a violation",
 			"an expression that fails contributes nothing to the output (Evaluator.Template's documented behaviour); the body around it is still compared",
 			"Evaluator.TemplateValue is defined on the whitespace-trimmed template (strings.TrimSpace, its first statement) and, by its own description, equals Template except when the template is a single identifier or expression: the statement's rule is applied to the trimmed text",
 			"NUL is excluded by the statement and is not a marker code point",
